@@ -31,7 +31,7 @@ COMPONENTS = {
 ASSUMPTIONS = [
     "numba compiles gibbs_options / mh_options / compound_step faithfully (observed interpreted); narrowed in both tiers by the compiled call-sampler probe (trace likelihoods recomputed, cache on/off trajectories) and in the thorough tier by the compiled kernel comparison",
     "reference posterior written from the documentation in sim/refmodel.py",
-    "kernel runs use strictly positive frequencies; zero-frequency and masked alleles enter through the cli flavour, where the application removes them before sampling",
+    "kernel runs with a frequency of exactly 0 (6%) start from states of positive density and use inbreeding 0 (with inbreeding > 0 a zero-frequency allele means lgamma(0), an interpretive-mode artefact); masked alleles enter through the cli flavour, where the application removes them before sampling",
     "cli flavour: the k-th numerical-core call inside one call_sample_genotypes invocation belongs to the k-th sample of the record",
 ]
 
